@@ -102,6 +102,7 @@ Qed.
    [remove_spec_statement bits]. *)
 From Stevia Require Import Avl.Impl Avl.Tree Avl.Spec Avl.Format Avl.Inv Avl.LinkInsert Avl.LinkSteps
   Avl.Master Avl.Clauses Avl.Capacity Avl.Quiet.
+From Stevia Require Import Avl.FinalMaster.
 
 (* which (operation, answer) pairs are "did nothing": a refused insert, a
    remove or a get_mut of an absent key, get_mut without a write, every
@@ -155,12 +156,25 @@ Theorem C09_avl_remove_absent_same : forall bits, remove_spec_statement bits ->
 Proof. exact remove_absent_same. Qed.
 Print Assumptions C09_avl_remove_absent_same.
 
+(* the premise discharged (Avl/FinalMaster.v) *)
+Theorem C09_avl_remove_absent_same_final : forall bits s t fr term k s' log,
+  Inv bits s t fr term -> okbits bits ->
+  remove bits s k = Ok (s', None, log) -> s' = s.
+Proof. exact remove_absent_same_final. Qed.
+Print Assumptions C09_avl_remove_absent_same_final.
+
 Theorem C09_avl_remove_absent_iff : forall bits, remove_spec_statement bits ->
   forall s t fr term k,
   Inv bits s t fr term -> okbits bits ->
   (t_find t k = None <-> remove bits s k = Ok (s, None, t_log t k)).
 Proof. exact remove_absent_iff. Qed.
 Print Assumptions C09_avl_remove_absent_iff.
+
+Theorem C09_avl_remove_absent_iff_final : forall bits s t fr term k,
+  Inv bits s t fr term -> okbits bits ->
+  (t_find t k = None <-> remove bits s k = Ok (s, None, t_log t k)).
+Proof. exact remove_absent_iff_final. Qed.
+Print Assumptions C09_avl_remove_absent_iff_final.
 
 (* get_mut of an absent key *)
 Theorem C09_avl_get_mut_absent_same : forall bits s t fr term k v' s' log,
@@ -183,6 +197,13 @@ Theorem C09_avl_refused_unchanged : forall bits, remove_spec_statement bits ->
 Proof. exact quiet_step_same. Qed.
 Print Assumptions C09_avl_refused_unchanged.
 
+(* the premise discharged (Avl/FinalMaster.v) *)
+Theorem C09_avl_refused_unchanged_final : forall bits s t fr term o s' x log,
+  Inv bits s t fr term -> okbits bits -> settled s ->
+  step_c bits s o = Ok (s', x, log) -> quiet o x -> s' = s.
+Proof. exact quiet_step_same_final. Qed.
+Print Assumptions C09_avl_refused_unchanged_final.
+
 Theorem C09_avl_refused_bytes : forall bits, remove_spec_statement bits ->
   forall wb lay s t fr term o s' x log,
   Inv bits s t fr term -> okbits bits -> settled s ->
@@ -190,6 +211,13 @@ Theorem C09_avl_refused_bytes : forall bits, remove_spec_statement bits ->
   encode wb lay s' = encode wb lay s.
 Proof. exact quiet_step_bytes. Qed.
 Print Assumptions C09_avl_refused_bytes.
+
+Theorem C09_avl_refused_bytes_final : forall bits wb lay s t fr term o s' x log,
+  Inv bits s t fr term -> okbits bits -> settled s ->
+  step_c bits s o = Ok (s', x, log) -> quiet o x ->
+  encode wb lay s' = encode wb lay s.
+Proof. exact quiet_step_bytes_final. Qed.
+Print Assumptions C09_avl_refused_bytes_final.
 
 (* the same for every operation but remove, with no premise *)
 Theorem C09_avl_refused_unchanged_noremove : forall bits s t fr term o s' x log,
@@ -213,6 +241,14 @@ Theorem C09_avl_refused_unchanged_reachable : forall bits, remove_spec_statement
   step_c bits s o = Ok (s', x, log) -> quiet o x -> s' = s.
 Proof. exact quiet_step_same_reachable. Qed.
 Print Assumptions C09_avl_refused_unchanged_reachable.
+
+(* the premise discharged (Avl/FinalMaster.v) *)
+Theorem C09_avl_refused_unchanged_reachable_final : forall bits capacity ops s o s' x log,
+  okbits bits -> capacity < 2 ^ bits -> (bits <> 8 -> capacity + 1 < 2 ^ bits) ->
+  Forall no_ext ops -> final_c bits (init_c capacity capacity) ops = Ok s ->
+  step_c bits s o = Ok (s', x, log) -> quiet o x -> s' = s.
+Proof. exact quiet_step_same_reachable_final. Qed.
+Print Assumptions C09_avl_refused_unchanged_reachable_final.
 
 (* non-vacuity: a tree with a recycled slot (a rotation and a removal
    behind it); a duplicate insert, an absent remove, an absent get_mut and
